@@ -10,7 +10,7 @@
      with_off o ls    each line paired with the offset just after its newline, o = offset of ls's first byte;
      st_at o sk       job state {curOffset = o; tail = []; shouldSkip = sk};
      nolimit          max_event_size = 0.                                                              *)
-From Verif Require Import Base.Sx Base.GoSem Model.Worker Proofs.Worker.
+From Verif Require Import Base.Sx Base.GoSem Model.Worker Proofs.Worker Proofs.WorkerMaint.
 
 (* --- the specification functions mean what their names say --------------------------------- *)
 Theorem c06_split_lines_is_the_line_split :
@@ -146,6 +146,132 @@ Theorem c06_pred_holds_on_model :
   /\ tail_relb c (tail st') (snd (split_lines b)) = true.
 Proof. exact worker_pred_holds. Qed.
 Print Assumptions c06_pred_holds_on_model.
+
+(* ============ histories with the job maintenance (provider.go maintenanceJob), Model/Worker.v h_step / h_run ============
+   Vocabulary:
+     hop                 HAppend a (writer appends) | HPass n (notification + worker pass, read buffer n) | HMaint n
+                         (maintenance tick; a job it resumes is worked on with read buffer n) | HTrunc k | HMove (renamed
+                         away / rotated);
+     h_run c rd hs ops   everything handed to In during the history + the final state {h_job; h_done; h_deleted; h_moved;
+                         h_file}; [rd n avail] = the pieces in which a pass reads the bytes behind the position — ANY
+                         function whose pieces concatenate to its input (rd_sound), os.File's [chunks] is one
+                         (c06_chunks_are_a_read_split);
+     h_start o sk fc d   a job at offset o with empty tail, shouldSkip = sk, on a file with content fc, done flag d;
+     appended ops        everything the writer appended during ops;  no_trunc ops: no HTrunc in ops;
+     drop o b / take k b b[o:] / b[:k].                                                                                *)
+Theorem c06_chunks_are_a_read_split :
+  forall n b, (0 < n)%nat -> concat (chunks n b) = b.
+Proof. exact chunks_concat. Qed.
+Print Assumptions c06_chunks_are_a_read_split.
+
+(* --- the maintenance tick of an idle job on an unchanged file that is still in place (close, re-open, seek to the
+   saved position) hands nothing to In and leaves curOffset, the held-back tail and shouldSkip exactly as they were --- *)
+Theorem c06_idle_maintenance_changes_nothing :
+  forall c rd hs n,
+  h_done hs = true -> h_deleted hs = false -> h_moved hs = false -> len (h_file hs) = cur (h_job hs) ->
+  h_step c rd (HMaint n) hs = (Some 4, [], hs).
+Proof. exact maint_idle_changes_nothing. Qed.
+Print Assumptions c06_idle_maintenance_changes_nothing.
+
+(* --- after ANY history of appends, passes, ticks and renames (any number of ticks at any position, in particular
+   between the append that leaves an unterminated tail and the one that completes it), every configuration, every
+   read shape: what was delivered is the specification of the bytes consumed so far, curOffset = bytes consumed, the
+   saved tail stands for their unterminated remainder ------------------------------------------------------------ *)
+Theorem c06_history_with_maintenance :
+  forall c rd, 0 <= wmax c -> rd_sound rd ->
+  forall o sk0 fc0 d0 ops, 0 <= o <= len fc0 -> no_trunc ops ->
+  let '(E, hs) := h_run c rd (h_start o sk0 fc0 d0) ops in
+  let b := take (cur (h_job hs) - o) (drop o (h_file hs)) in
+  h_file hs = fc0 ++ appended ops
+  /\ o <= cur (h_job hs) <= len (h_file hs)
+  /\ Forall2 (emitR c) E (spec_emits c sk0 o b)
+  /\ skip (h_job hs) = sk0 && negb (has_line b)
+  /\ accR c (snd (split_lines b)) (tail (h_job hs)).
+Proof. exact hist_general. Qed.
+Print Assumptions c06_history_with_maintenance.
+
+(* --- a history that ends with a worker pass has delivered every line written at any time: once, whole, in order,
+   with its end offset (emitR: equal, or in cut-off mode the stand-in checkInputBytes treats alike) ---------------- *)
+Theorem c06_history_every_line_once :
+  forall c rd, 0 <= wmax c -> rd_sound rd ->
+  forall o sk0 fc0 d0 ops n, 0 <= o <= len fc0 -> no_trunc ops ->
+  let '(E, hs) := h_run c rd (h_start o sk0 fc0 d0) (ops ++ [HPass n]) in
+  h_deleted hs = false ->
+  let b := drop o (fc0 ++ appended ops) in
+  h_file hs = fc0 ++ appended ops
+  /\ cur (h_job hs) = len (fc0 ++ appended ops)
+  /\ Forall2 (emitR c) E (spec_emits c sk0 o b)
+  /\ skip (h_job hs) = sk0 && negb (has_line b)
+  /\ accR c (snd (split_lines b)) (tail (h_job hs)).
+Proof. exact hist_every_line_once. Qed.
+Print Assumptions c06_history_every_line_once.
+
+(* --- the same when the last reader is a tick on an idle job: a grown file is resumed and read to its end --------- *)
+Theorem c06_history_tick_reads_all :
+  forall c rd, 0 <= wmax c -> rd_sound rd ->
+  forall o sk0 fc0 d0 ops n, 0 <= o <= len fc0 -> no_trunc ops ->
+  h_done (snd (h_run c rd (h_start o sk0 fc0 d0) ops)) = true ->
+  let '(E, hs) := h_run c rd (h_start o sk0 fc0 d0) (ops ++ [HMaint n]) in
+  h_deleted hs = false ->
+  let b := drop o (fc0 ++ appended ops) in
+  h_file hs = fc0 ++ appended ops
+  /\ cur (h_job hs) = len (fc0 ++ appended ops)
+  /\ Forall2 (emitR c) E (spec_emits c sk0 o b)
+  /\ skip (h_job hs) = sk0 && negb (has_line b)
+  /\ accR c (snd (split_lines b)) (tail (h_job hs)).
+Proof. exact hist_tick_reads_all. Qed.
+Print Assumptions c06_history_tick_reads_all.
+
+(* --- no size limit: exact equality, whatever ticks and renames are interleaved ---------------------------------- *)
+Theorem c06_history_offsets_exact :
+  forall rd o fc0 d0 ops n, rd_sound rd -> 0 <= o <= len fc0 -> no_trunc ops ->
+  let '(E, hs) := h_run nolimit rd (h_start o false fc0 d0) (ops ++ [HPass n]) in
+  h_deleted hs = false ->
+  let b := drop o (fc0 ++ appended ops) in
+  E = with_off o (fst (split_lines b))
+  /\ h_job hs = {| cur := len (fc0 ++ appended ops); tail := snd (split_lines b); skip := false |}.
+Proof. exact hist_offsets_exact. Qed.
+Print Assumptions c06_history_offsets_exact.
+
+(* --- truncation below the read position: the next pass — by notification or by a tick — delivers nothing and
+   restarts the job at offset 0 with an EMPTY tail (the unterminated line of the old content no longer exists);
+   from there c06_history_with_maintenance applies again (h_start 0 sk file true) -------------------------------- *)
+Theorem c06_truncation_restarts_without_tail :
+  forall c rd, 0 <= wmax c -> rd_sound rd ->
+  forall hs n, h_deleted hs = false -> len (h_file hs) < cur (h_job hs) ->
+  let hs' := {| h_job := st_at 0 (skip (h_job hs)); h_done := true; h_deleted := false; h_moved := h_moved hs;
+                h_file := h_file hs |} in
+  h_step c rd (HPass n) hs = (None, [], hs')
+  /\ (h_done hs = true -> h_step c rd (HMaint n) hs = (Some 2, [], hs')).
+Proof. exact hist_truncation_restarts. Qed.
+Print Assumptions c06_truncation_restarts_without_tail.
+
+(* --- the boolean relations evaluated by the history predicate of the correspondence check hold of every model run --- *)
+Theorem c06_history_pred_holds_on_model :
+  forall c rd o sk0 fc0 d0 ops, 0 <= wmax c -> rd_sound rd -> 0 <= o <= len fc0 -> no_trunc ops ->
+  let '(E, hs) := h_run c rd (h_start o sk0 fc0 d0) ops in
+  let b := take (cur (h_job hs) - o) (drop o (h_file hs)) in
+  forall2b (emit_okb c) (map (fun e => (e, None)) E) (spec_emits c sk0 o b) = true
+  /\ tail_relb c (tail (h_job hs)) (snd (split_lines b)) = true
+  /\ cur (h_job hs) = o + len b.
+Proof. exact hist_pred_holds. Qed.
+Print Assumptions c06_history_pred_holds_on_model.
+
+(* non-vacuity of the history theorems: "abc\ndef" | pass | tick (idle: re-open) | tick | "ghi\n" | tick (resumes and
+   reads) | "x" | pass | truncate to 2 | tick (detects, restarts at 0) | tick (reads "ab" again into the tail);
+   the second line arrives whole ("defghi\n"@11) although two ticks re-opened the file while "def" was held back *)
+Example c06_history_nonvacuous :
+  let ops := [HAppend [97;98;99;10;100;101;102]%N; HPass 2; HMaint 2; HMaint 2; HAppend [103;104;105;10]%N; HMaint 3;
+              HAppend [120]%N; HPass 1] in
+  h_run nolimit chunks (h_start 0 false [] false) ops
+    = ([(4, [97;98;99;10]%N); (11, [100;101;102;103;104;105;10]%N)],
+       {| h_job := {| cur := 12; tail := [120]%N; skip := false |}; h_done := true; h_deleted := false; h_moved := false;
+          h_file := [97;98;99;10;100;101;102;103;104;105;10;120]%N |})
+  /\ no_trunc ops
+  /\ snd (h_run nolimit chunks (h_start 0 false [] false) (ops ++ [HTrunc 2; HMaint 1; HMaint 1]))
+    = {| h_job := {| cur := 2; tail := [97;98]%N; skip := false |}; h_done := true; h_deleted := false; h_moved := false;
+         h_file := [97;98]%N |}.
+Proof. split; [vm_compute; reflexivity|]. split; [repeat constructor|vm_compute; reflexivity]. Qed.
 
 (* non-vacuity: content "ab\n\ncdefg\nh" read from offset 100 in two passes, reads of odd sizes, a line
    split over three reads and two passes; with max = 3: skip mode drops "cdefg\n", cut mode + admission
